@@ -68,6 +68,12 @@ Apply(op, a, b, c) ==
     \* a call of another view: H(a, b) evaluates `let v1 = a * 2; total = v1 + b` in a scope of its own (the callee's
     \* let is named like a variable of the caller on purpose) and yields the record of its assigned fields
     [] op = "call"  -> Map([total |-> IntV(a.i * 2 + b.i)])
+    \* recursive views: the recursive call sits inside an operand of !=, +, && and | respectively, so the operator is
+    \* entered again while its own operands are being evaluated
+    [] op = "rodd"  -> Bool(a.i % 2 = 1)                         \* Odd(n)  = if n == 0 then false else Odd(n - 1) != true
+    [] op = "rsum"  -> IntV((a.i * (a.i + 1)) \div 2)             \* Sum(n)  = if n == 0 then 0 else Sum(n - 1) + n
+    [] op = "rall"  -> Bool(TRUE)                                 \* All(n)  = if n == 0 then true else All(n - 1) && n > 0
+    [] op = "rlist" -> List([j \in 1..(a.i + 1) |-> IntV(j - 1)]) \* Upto(n) = if n == 0 then [0] else Upto(n - 1) | [n]
     \* a record built by a transform without iteration: (a = ..., b = ..., c = ...)
     [] op = "mkmap"  -> Map([a |-> a, b |-> b, c |-> c])
     \* attribute access
@@ -100,6 +106,7 @@ WellTyped(op, a, b, c) ==
     [] op = "tform" -> a.k \in {"list", "set"} /\ ElemKinds(a) \subseteq {"int"} /\ b.k = "int"
     [] op = "tconst" -> a.k \in {"list", "set"} /\ ElemKinds(a) \subseteq {"int"} /\ b.k = "int"
     [] op = "call" -> a.k = "int" /\ b.k = "int"
+    [] op \in {"rodd", "rsum", "rall", "rlist"} -> a.k = "int" /\ a.i >= 0 /\ a.i <= 8
     [] op = "tset" -> a.k \in {"list", "set"} /\ ElemKinds(a) \subseteq {"int"} /\ b.k = "int"
     [] op = "mkmap" -> a.k = "int" /\ b.k = "int" /\ c.k = "int"
     [] op = "attr" -> a.k = "map" /\ DOMAIN a.m = {"a", "b", "c"}
